@@ -18,6 +18,7 @@ const RF: Shape = Shape::follower3(3, 0).with_terms(&[1, 2, 3]).with_term(5).wit
 const RF_ASYNC: Shape = Shape::follower3(3, 0).with_terms(&[1, 1, 1]).with_term(5).with_commit(1).with_applied(1).with_persisted(1).with_flags(false, false, false);
 const RL: Shape = L21S.with_commit(1).with_applied(1).with_persisted(2).with_peers(&[PeerShape::probe(2, 2).matched(1).paused(), PeerShape::probe(3, 2).matched(0).paused()]);
 const RL_ACTIVE: Shape = L21S.with_commit(1).with_applied(1).with_persisted(2).with_peers(&[PeerShape::replicate(2, 4, 0).matched(3), PeerShape::probe(3, 2).matched(0).paused()]);
+const RS1_LEADER: Shape = Shape::follower3(2, 1).with_role(StateRole::Leader).with_conf(&[1], &[], &[], &[], false).with_terms(&[1, 2, 5]).with_term(5).with_commit(2).with_applied(2).with_persisted(2).with_flags(false, false, false);
 const RS1L: Shape = Shape::follower3(3, 0).with_conf(&[1], &[], &[2], &[], false).with_terms(&[1, 2, 3]).with_term(5).with_commit(3).with_applied(3).with_persisted(3).with_flags(false, false, false);
 const RS1: Shape = Shape::follower3(3, 0).with_conf(&[1], &[], &[], &[], false).with_terms(&[1, 2, 3]).with_term(5).with_commit(3).with_applied(3).with_persisted(3).with_flags(false, false, false);
 const CAND3: Shape = Shape::follower3(3, 0).with_role(StateRole::Candidate).with_term(5).with_terms(&[1, 2, 3]).with_commit(1).with_votes(&[(1, true)]);
@@ -49,6 +50,7 @@ const L21_SNAP_DONE: Shape = L21S.with_commit(1).with_persisted(2).with_peers(&[
 const L21_CQ_LOST: Shape = L21S.with_flags(true, false, false).with_commit(1).with_persisted(2).with_peers(&[PeerShape::probe(2, 2).matched(1).inactive(), PeerShape::probe(3, 2).matched(0).inactive()]);
 const L21_CQ_OK: Shape = L21S.with_flags(true, false, false).with_commit(1).with_persisted(2).with_peers(&[PeerShape::probe(2, 2).matched(1), PeerShape::probe(3, 2).matched(0).inactive()]);
 const L21_LEARNER: Shape = L21S.with_conf(&[1, 2, 3], &[], &[4], &[], false).with_commit(1).with_persisted(2).with_peers(&[PeerShape::replicate(2, 4, 0).matched(3), PeerShape::probe(3, 2).matched(0).paused(), PeerShape::probe(4, 2).matched(0).paused()]);
+const L21_BOTH: Shape = L21S.with_commit(1).with_persisted(2).with_peers(&[PeerShape::probe(2, 3).matched(1), PeerShape::probe(3, 3).matched(2).paused()]);
 const L21_PROP: Shape = L21S.with_commit(1).with_persisted(2).with_applied(1).with_peers(&[PeerShape::probe(2, 2).matched(1).paused(), PeerShape::probe(3, 2).matched(0).paused()]);
 const L21_PROP_JOINT: Shape = L21_JOINT_OK.with_applied(1);
 const L21_PERSIST: Shape = L21S.with_commit(1).with_persisted(1).with_peers(&[PeerShape::probe(2, 3).matched(2).paused(), PeerShape::probe(3, 2).matched(0).paused()]);
@@ -453,6 +455,9 @@ harnesses! {
     { dbg_app, "DBG", quick, unwind = 8, "dbg", |s| rawnode::dbg_app(s, &RnShape::of(RF)) }
     { dbg_app2, "DBG", quick, unwind = 8, "dbg", |s| rawnode::dbg_app2(s, &RnShape::of(RF)) }
     { dbg_persist, "DBG", quick, unwind = 8, "dbg", |s| rawnode::dbg_persist(s, &RnShape::of(RL)) }
+    { rn_singleton_stepdown_recampaign, "C20", quick, unwind = 8,
+      "RawNode single voter leading with an unpersisted entry is told of a higher term by a node outside its configuration (a removed peer still campaigning), steps down, and campaigns again before the application has processed a Ready: must not panic",
+      |s| rawnode::cycle(s, &RnShape::of(RS1_LEADER), &Input::vote(7), &Input::HUP) }
     { rn_step_rejects, "C20", quick, unwind = 8,
       "RawNode::step refuses the five local message types and responses from a non-member, state untouched",
       |s| rawnode::step_rejects(s, &RnShape::of(RF)) }
@@ -906,6 +911,12 @@ harnesses! {
     { apply_follower_demoted, "C09,C12", quick, unwind = 8,
       "follower applies AddLearnerNode(1): not promotable any more",
       |s| c12::apply_step(s, &F30, &[(2, 1)], 0, None) }
+    { apply_remove_self_then_ack, "C20,C09", quick, unwind = 8,
+      "leader applies RemoveNode(itself) and, still in office, receives an ack that lets the remaining voters {2,3} commit index 2: must not panic, commit follows the new quorum",
+      |s| c12::apply_then_ack(s, &L21_BOTH, &[(1, 1)], 2, 2) }
+    { apply_demote_self_then_ack, "C20,C09", quick, unwind = 8,
+      "leader applies AddLearnerNode(itself) (still tracked as learner) and receives an ack that commits: no panic",
+      |s| c12::apply_then_ack(s, &L21_BOTH, &[(2, 1)], 2, 2) }
     // ---------------- C14 RaftLog ----------------
     { dbg1, "DBG", quick, unwind = 10, "dbg", |s| c14::dbg1(s, &L21T) }
     { dbg2, "DBG", quick, unwind = 10, "dbg", |s| c14::dbg2(s, &L21T) }
